@@ -793,7 +793,73 @@ def c13(ctx):
     ctx.extra_cov["parser_inputs"] = st.get("inputs", 0)
 
 
+def c20(ctx):
+    """Independent conversations.  OTR.tla has no variable shared between pairs, so N pairs are the
+    product of N copies; SharedAppend.tla models the one way the implementation could couple them (an
+    append to a package-level prefix slice with spare capacity) and TLC shows interference iff cap > len.
+    On the real code: every package-level slice has len = cap and is unchanged afterwards; the driver,
+    built with the race detector, runs 16 (32) pairs at the same time on their own goroutines
+    (handshakes, traffic, errors, SMP, fragmentation, teardown) and each pair's trace must equal, event
+    for event, the trace of the same pair run alone; the concurrent traces are validated by TLC."""
+    import shutil, subprocess
+    q = ctx.quick()
+    d = os.path.join(ctx.work, "sa")
+    os.makedirs(d, exist_ok=True)
+    shutil.copy(os.path.join(vlib.SPEC, "SharedAppend.tla"), d)
+    for (ln, cap, expect) in ((3, 3, False), (4, 4, False), (3, 5, True)):
+        open(os.path.join(d, "SharedAppend.cfg"), "w").write("SPECIFICATION Spec\nCONSTANTS\n  PrefixLen = %d\n  Cap = %d\n  DataLen = 2\nINVARIANTS NoInterference PrefixIntact\nCHECK_DEADLOCK FALSE\n" % (ln, cap))
+        rc, out = vlib.run_tlc(d, module="SharedAppend", workers=1, timeout=300, heap="1g")
+        gen, dist, err = vlib.tlc_stats(out)
+        ctx.model_runs.append(dict(name="SharedAppend len=%d cap=%d" % (ln, cap), states=dist, transitions=gen, error=err, expect_violation=expect))
+        if bool(err) != expect:
+            raise Broken("SharedAppend.tla len=%d cap=%d: expected violation=%s, TLC says %s" % (ln, cap, expect, err))
+        ctx.states += dist or 0
+        ctx.transitions += gen or 0
+    # race-detector build of the driver
+    race = vlib.BIN + "-race"
+    p = subprocess.run(["go", "build", "-race", "-tags", "verif", "-o", race, "./cmd/otrdrive"], cwd=vlib.HARNESS, env=vlib.GOENV, capture_output=True, text=True)
+    if p.returncode != 0:
+        raise Broken("race build failed: " + p.stderr[-1500:])
+    sched = os.path.join(ctx.work, "conc.sched")
+    with open(sched, "w") as fo:
+        for fam, n, depth in (("life", 5, 40), ("errlife", 3, 40), ("smp", 3, 2), ("data", 3, 40), ("fragsweep", 2, 6)):
+            n2 = n if q else n * 2
+            tmp = os.path.join(ctx.work, "c-%s.sched" % fam)
+            subprocess.run([vlib.BIN, "gen", "-family", fam, "-n", str(n2), "-depth", str(depth), "-seed", str(ctx.seed * 31 + len(fam)), "-out", tmp], check=True)
+            fo.write(open(tmp).read())
+    tf = os.path.join(ctx.work, "conc.trace")
+    env = dict(os.environ, GORACE="halt_on_error=1 exitcode=66")
+    pr = subprocess.run([race, "concurrent", "-sched", sched, "-out", tf, "-seed", str(ctx.seed), "-rounds", "2" if q else "6"],
+                        capture_output=True, text=True, env=env, timeout=3000)
+    first = None
+    stats = {}
+    for line in pr.stdout.splitlines():
+        if line.startswith("CONCVIOLATION") and first is None:
+            first = line
+        if line.startswith("CONCURRENT"):
+            for kv in line.split()[1:]:
+                k, v = kv.split("=")
+                stats[k] = int(v)
+    if pr.returncode == 66 or "DATA RACE" in pr.stderr:
+        first = "the race detector reports a data race: " + " ".join(pr.stderr.split("\n")[1:6])[:300]
+    elif pr.returncode != 0 and first is None:
+        raise Broken("concurrent driver failed rc=%s %s" % (pr.returncode, pr.stderr[-800:]))
+    if first:
+        ctx.findings.append(dict(kind="GO", reason=first[:500], trace=None, line=0, ev="concurrent", p="-", run=None, idx=None))
+    ctx.extra_cov["concurrent"] = stats
+    ctx.events += stats.get("events", 0)
+    ctx.sched_of_trace[tf] = None
+    if os.path.exists(tf) and os.path.getsize(tf) > 0:
+        reports, lines = vlib.validate_traces([tf], ctx.kf)
+        ctx.traces_validated += stats.get("pairs", 0)
+        ctx.schedules += stats.get("pairs", 0)
+        ctx.samples.append(dict(schedule=json.loads(open(sched).readline())))
+        ctx.classify(reports)
+    ctx.exhaustive = False
+
+
 TABLE = {
+    "C20": c20,
     "C13": c13,
     "C17": c17,
     "C10": c10,
